@@ -4,6 +4,7 @@ CONSTANTS
   MaxCount = 6
   AsCoded = FALSE
   Crashes = FALSE
+  Batched = TRUE
   Depth = 4
   Forks = TRUE
   Concs = TRUE
